@@ -43,10 +43,13 @@ Broken    == {i \in Idx : i > 1 /\ Steps[i].step > 0 /\ Steps[i].pre # Steps[i -
 Describe(i) == LET e == Steps[i] IN
   [line |-> i, seq |-> e.seq, step |-> e.step, pre |-> e.pre, req |-> e.req, resp |-> e.resp, post |-> e.post,
    expected |-> LET o == Step(e.pre, e.req, K) IN [resp |-> o.resp, post |-> o.s]]
+SelfG(p) == [H |-> [c \in DOMAIN p.ch |-> p.ch[c].curH.htlcs], C |-> [c \in DOMAIN p.ch |-> p.ch[c].curC.htlcs]]
+InFlight(p) == \E h \in DOMAIN p.inv : p.inv[h].amt > 0 /\ GOut(SelfG(p), h) > 0
 FirstN(S, n) == LET q == SetToSeq(S) IN SubSeq(q, 1, Min(n, Len(q)))
 Report == [ steps |-> Len(Steps),
             accepted |-> Cardinality({i \in Idx : Steps[i].resp.ok}),
             changed |-> Cardinality({i \in Idx : Steps[i].pre # Steps[i].post}),
+            in_flight_steps |-> Cardinality({i \in Idx : InFlight(Steps[i].post)}),
             stale_steps |-> Cardinality({i \in Idx : StaleStep(Steps[i])}),
             ndivergent |-> Cardinality(Divergent),
             divergences |-> [i \in DOMAIN FirstN(Divergent, 12) |-> Describe(FirstN(Divergent, 12)[i])],
